@@ -217,6 +217,7 @@ pub fn required_probes(prop: &str) -> Vec<&'static str> {
             "rule.P2.evaluated",
             "rule.P4.evaluated",
             "rule.P5.evaluated",
+            "rule.P6.evaluated",
             "probe.launch_with_environment",
             "entry.OptionParser_run",
             "entry.Parser_run",
@@ -263,6 +264,7 @@ pub fn required_probes(prop: &str) -> Vec<&'static str> {
             "rule.R4.evaluated",
             "rule.R4.env_only.evaluated",
             "rule.R5.evaluated",
+            "rule.R5alt.evaluated",
             "rule.R7.evaluated",
             "rule.R8.evaluated",
             "rule.R9.evaluated",
